@@ -38,7 +38,7 @@ class EEMSRead(Command):
     def execute(self, **kwargs):
         path = kwargs["InFileName"]
         variable_name = kwargs["InFieldName"]
-        data_type = kwargs.get("DataType", "Float")
+        data_type = kwargs.get("DataType", numpy.float64)
 
         with Dataset(kwargs["InFileName"], "r") as dataset:
             if kwargs["InFieldName"] not in dataset.variables:
@@ -48,7 +48,7 @@ class EEMSRead(Command):
             data = variable[:]
 
         if self.get_argument_value("DataType", "Float") in ("Positive Integer", "Positive Float") and data.min() < 0:
-            raise InvalidPositiveData(path, kwargs["DataType"], lineno=self.lineno)
+            raise InvalidPositiveData(path, self.get_argument_value("DataType"), lineno=self.lineno)
 
         if numpy.issubdtype(data.dtype, numpy.float64) and data_type in (
             int,
@@ -63,7 +63,7 @@ class EEMSRead(Command):
             fill_value=999999 if data_type in (int, numpy.uint) else None,
         )
 
-        if kwargs.get("DataType", "Float") == "Fuzzy":
+        if self.get_argument_value("DataType", "Float") == "Fuzzy":
             fuzzy_pad = 0.01 * (FUZZY_MAX - FUZZY_MIN)
 
             if data.max() > FUZZY_MAX + fuzzy_pad or data.min() < FUZZY_MIN - fuzzy_pad:
@@ -81,7 +81,7 @@ class EEMSRead(Command):
                 else float(kwargs["MissingValue"])
             )
 
-            self.result.mask = numpy.where(result.data == missing_value, True, result.mask or False)
+            result.mask = numpy.where(result.data == missing_value, True, numpy.ma.getmaskarray(result))
 
         result.data[result.mask] = result.fill_value
 
